@@ -11,10 +11,10 @@ import (
 	"fmt"
 	"go/types"
 	"path"
-	"unicode"
 	"path/filepath"
 	"strconv"
 	"strings"
+	"unicode"
 
 	"golang.org/x/tools/go/ssa"
 )
@@ -391,7 +391,6 @@ func initState(m *Machine, pkgs ...string) *State {
 	}
 	return st
 }
-
 
 // eofVal / unexpectedEOFVal stand for io.EOF and io.ErrUnexpectedEOF.
 var eofVal = IfaceV{T: types.NewPointer(types.Typ[types.String]), V: "io.EOF"}
